@@ -47,15 +47,15 @@ TABLE = {
         note='Aggregate values not decided.',
         tech='CFG shape + ownership + arithmetic normal form + provenance'),
     'C11': dict(
-        text='Wiring of every documented setting from load_config/resolve_source_format through cmd_run into the consuming parameter (def-use chains), per-source isolation, error paths of the source loop keep going, parser siblings agree, documented keys are consumed. The source file is looked up under the budget only; every source gets a FormatSpec of its own (no module-level or caller-provided cache); no setting is derived from another; crossed-argument rule over the loaders.',
+        text='Wiring of every documented setting from load_config/resolve_source_format through cmd_run into the consuming parameter (def-use chains), per-source isolation, error paths of the source loop keep going, parser siblings agree, documented keys are consumed. The source file is looked up under the budget only; every source gets a FormatSpec of its own (no module-level or caller-provided cache); no setting is derived from another; crossed-argument rule over the loaders. The date column of a supplemental row is reduced to a date like the transaction\'s.',
         note='Report contents as values not decided; cmd_run cannot be executed by the suite, analysis is source-only.',
         tech='def-use chains across functions + CFG exit analysis of the source loop'),
     'C12': dict(
-        text='No unbound names in analyzer/report functions; script-safe embedding of the JSON data; placeholder replacement discipline; key functions injective or collision-handled; one source for headline figures; field coverage between analyzer writer and report reader. Finding keys of the id helpers include the sanitiser\'s own operations; formatting wrappers pass the amount unchanged; the report builders change nothing they did not create.',
+        text='No unbound names in analyzer/report functions; script-safe embedding of the JSON data; placeholder replacement discipline; key functions injective or collision-handled; one source for headline figures; field coverage between analyzer writer and report reader. Finding keys of the id helpers include the sanitiser\'s own operations; formatting wrappers pass the amount unchanged; the report builders change nothing they did not create. Every rewrite of the serialised data is another JSON spelling of the same text.',
         note='HTML/JSON parser round trip (library behaviour) and text layout not decided.',
         tech='symbol-table analysis + text-template/sanitiser provenance'),
     'C13': dict(
-        text='Translation validation: classification.py (ast) and the mirrored block of spending_report.js (own JS parser) are normalised to the same decision-tree terms and compared path by path for 7 function pairs and 5 constants; every JS call site of categorizeAmount is checked for argument provenance; special-tag literals outside the block are audited. External report assets are rewritten on every run.',
+        text='Translation validation: classification.py (ast) and the mirrored block of spending_report.js (own JS parser) are normalised to the same decision-tree terms and compared path by path for 7 function pairs and 5 constants; every JS call site of categorizeAmount is checked for argument provenance; special-tag literals outside the block are audited. External report assets are rewritten on every run. Decision trees that differ as path sets are compared by truth table over their atomic conditions; a JS switch is read as the if-chain it abbreviates.',
         note='Assumes primitive correspondences (str.lower vs toLowerCase on ASCII tags, IEEE doubles on both sides, Set.has vs in).',
         tech='two front ends -> common decision-tree normal form, structural equality',
         level='translation_validation'),
@@ -64,23 +64,23 @@ TABLE = {
         note='Regex semantics beyond the quoting layer not decided.',
         tech='text-template hole analysis + operator-table agreement + normal-form comparison'),
     'C15': dict(
-        text='Ordered effect sequence of each migration function run through a typestate automaton of what load_config can discover: pointer before destroy, nothing fallible after the destructive step, no overwrite by move, marker last, append-only settings.',
+        text='Ordered effect sequence of each migration function run through a typestate automaton of what load_config can discover: pointer before destroy, nothing fallible after the destructive step, no overwrite by move, marker last, append-only settings. No directory is relocated entry by entry; the marker is written under the destination of the config move.',
         note='Resumability of the half-done layout migration and torn writes not decided.',
         tech='effect-sequence extraction along the CFG + typestate automaton'),
     'C16': dict(
-        text='Sibling cross-check of cmd_run / cmd_explain / cmd_discover pipelines (feature vectors of loading, supplemental handling, parse_generic_csv keywords), one decision procedure reachable from each command, the Unknown literal contract. One place (load_config) decides the rules file; explain matches the amount it was given.',
+        text='Sibling cross-check of cmd_run / cmd_explain / cmd_discover pipelines (feature vectors of loading, supplemental handling, parse_generic_csv keywords), one decision procedure reachable from each command, the Unknown literal contract. One place (load_config) decides the rules file; explain matches the amount it was given. A merchant found by a looser match is explained only where the exact name has been tried and failed.',
         note='Output formatting not decided.',
         tech='call-graph reachability + keyword-provenance feature vectors, contradiction rule'),
     'C17': dict(
-        text='Line loops of MerchantEngine.parse and parse_sections consume-or-raise on every path, every kept expression reaches parse_expression before the engine is returned, load errors are reported by every handler, required-property guards dominate construction, classifier tests apply to the stripped line. Category-or-tags requirement decided by truth table over the guards of the construction; rejections classified by the branch outcomes leading to each raise; the line is classified as written; a property line is accepted independently of the section\'s other properties; a section is never rejected because of other sections.',
+        text='Line loops of MerchantEngine.parse and parse_sections consume-or-raise on every path, every kept expression reaches parse_expression before the engine is returned, load errors are reported by every handler, required-property guards dominate construction, classifier tests apply to the stripped line. Category-or-tags requirement decided by truth table over the guards of the construction; rejections classified by the branch outcomes leading to each raise; the line is classified as written; a property line is accepted independently of the section\'s other properties; a section is never rejected because of other sections. Per-section containers (let_bindings, fields) are created for the section, never inherited through a one-level copy of a shared template.',
         note='The full metamorphic law over all files not decided.',
         tech='CFG path/dominance rules + handler audit'),
     'C18': dict(
-        text='Positions stored from enumerate() unmodified, rejections dominate stores/construction, inspect writer tokens are accepted by the reader regex (constant evaluation of source literals), name agreement in the suggestion loop. Every date format the detector can emit is free of commas and braces; sign flags are only written for the amount field.',
+        text='Positions stored from enumerate() unmodified, rejections dominate stores/construction, inspect writer tokens are accepted by the reader regex (constant evaluation of source literals), name agreement in the suggestion loop. Every date format the detector can emit is free of commas and braces; sign flags are only written for the amount field. The four rejections are recognised by the guards of their raise statements; a header gives its index to at most one column of the detector.',
         note='Header keyword detection on real files not decided.',
         tech='dominance + provenance + regex-literal writer/reader agreement'),
     'C19': dict(
-        text='Language agreement between suggest_pattern (regex text) and the matcher its consumers wrap it in, literal-context escaping at both consumers, emitted block uses keys of the loader table. No regex assertion is glued around the kept words; the loader reads each line back as written.',
+        text='Language agreement between suggest_pattern (regex text) and the matcher its consumers wrap it in, literal-context escaping at both consumers, emitted block uses keys of the loader table. No regex assertion is glued around the kept words; the loader reads each line back as written. Deletion patterns assembled from constant tables or precompiled at module level are folded and checked for anchoring.',
         note='Sub-match reasoning about stripped prefixes not decided.',
         tech='producer/consumer language inference + template hole analysis'),
     'C20': dict(
